@@ -236,7 +236,7 @@ def part_valuesets(ctx, ct, jobs):
                 break
         if (1 in vs) != (True in vs) or (0 in vs) != (False in vs):
             ctx.violation("ValueSet.__contains__:bool-int", {"kind": "expr", "expr": e, "query": 1}, "True/1 or False/0 disagree")
-        if o[0] is not None and den is not None and wf and o[2] != sorted(den):
+        if o[0] is not None and den is not None and sorted(set(o[2])) != sorted(den):     # as a SET (multiplicity is not the property's business)
             ctx.violation("ValueSet.iter_values:not-the-members", {"kind": "expr", "expr": e, "query": None},
                           "iter_values() lists %r, members are %r" % (o[2], sorted(den)))
     ctx.sample({"valueset_expr": exprs[len(corpus)] if len(exprs) > len(corpus) else exprs[0]})
@@ -755,6 +755,49 @@ def save_corpus(kind, obj):
         f.write(line + "\n")
 
 
+# ---------------------------------------------------------------- exhaustive small box -----
+def part_exhaustive(ctx, ct):
+    """Oracle only (implementation): EVERY ValueSet(*items) with up to 4 (thorough: 5) items over values 0..4 / ranges
+    0 <= lo <= hi <= 4: containment = union of the items; every PAIR of the <=2-item sets: is_disjoint both ways."""
+    import itertools
+    top = 4
+    items = list(range(top + 1)) + [(lo, hi) for lo in range(top + 1) for hi in range(lo, top + 1)]
+    uni = list(range(-1, top + 2))
+
+    def den(seq):
+        d = set()
+        for it in seq:
+            d |= set(range(it[0], it[1] + 1)) if isinstance(it, tuple) else {it}
+        return d
+    small = []
+    for n in range(0, ctx.pick(4, 5) + 1):
+        for seq in itertools.product(items, repeat=n):
+            vs = ct.ValueSet(*seq)
+            d = den(seq)
+            got = set(q for q in uni if q in vs)
+            ctx.count(1, bucket="exhaustive:ctor-len-%d" % n)
+            if got != d or set(vs.iter_values()) != d:
+                ctx.violation("ValueSet.__contains__:not-union-of-added", {"kind": "expr", "expr": ("ctor", list(seq)), "query": None},
+                              "members %r, listed %r" % (sorted(got), sorted(d)), observed=sorted(got), expected=sorted(d))
+                return
+            if n <= 2:
+                small.append((seq, vs, d))
+    small.append(((), ct.AnyValue(), set(uni)))
+    nbad = 0
+    for (sa, va, da) in small:
+        for (sb, vb, db) in small:
+            exp = not (da & db)
+            if va.is_disjoint(vb) != exp:
+                nbad += 1
+                if nbad <= 3:
+                    ea = ("any",) if isinstance(va, ct.AnyValue) else ("ctor", list(sa))
+                    eb = ("any",) if isinstance(vb, ct.AnyValue) else ("ctor", list(sb))
+                    ctx.violation("ValueSet.is_disjoint:wrong-answer", {"kind": "disjoint", "a": ea, "b": eb},
+                                  "is_disjoint = %r but common members = %r" % (not exp, sorted(da & db)), observed=not exp, expected=exp)
+    ctx.count(len(small) ** 2, bucket="exhaustive:is_disjoint-pairs")
+    ctx.exhaustive = True
+
+
 # ---------------------------------------------------------------- recorded witnesses ------
 def part_witnesses(ctx, ct, asr, VNA):
     """The `_refuted` / `needs_` witnesses of Props/C17.v, run on the real code: the model's
@@ -790,11 +833,13 @@ def run(ctx):
         "empty 'catch-all' columns), partial assignments, filter/is_allowed/allowed_values_for(+any_value), assert_level_constraint on "
         "sequences with distinct and repeated keys. C: random abstract CSV tables printed to text (ditto marks, any, ranges, bools, blank/"
         "comment rows, short rows, repeated keys) + the CSVs shipped in the repository. Oracle: brute-force sets over the universe. "
+        "Exhaustive (implementation only): every ValueSet(*items) with <= 4 items (thorough 5) over 0..4, containment; every pair of the <= 2-item sets and AnyValue, is_disjoint. "
         "Non-trivial: a set with members / a filter keeping some but not all columns / a non-empty sequence / a CSV with cells." % (N, U[0], U[-1]))
     jobs = []
     part_valuesets(ctx, ct, jobs)
     part_tables(ctx, ct, asr, VNA, jobs)
     part_witnesses(ctx, ct, asr, VNA)
+    part_exhaustive(ctx, ct)
     part_csv(ctx, ct, jobs)
     # all correspondence shards of all parts are evaluated by Coq concurrently
     import concurrent.futures
@@ -826,7 +871,7 @@ def replay(ctx, data):
             if (q in vs) != exp:
                 print("%d in set = %r, listed values/ranges say %r" % (q, q in vs, exp))
                 bad = True
-        if not isinstance(vs, ct.AnyValue) and den is not None and expr_wf(e) and sorted(int(v) for v in vs.iter_values()) != sorted(den):
+        if not isinstance(vs, ct.AnyValue) and den is not None and sorted(set(int(v) for v in vs.iter_values())) != sorted(den):
             print("iter_values differs")
             bad = True
     elif kind == "disjoint":
